@@ -679,37 +679,10 @@ def parseReply : String → Option QueryReply
   | "disconnect" => some .disconnect
   | _ => none
 
-/-- one get(), alone; every `Manager::recycle` on an open client whose method has a query
-consumes the next scripted reply -/
-def soloGet (d : PwState) (i : Nat) (replies : List QueryReply) : Nat → PwState × List (Nat × String)
-  | 0 => (d, [])
-  | fuel + 1 =>
-    match d.pool.ops[i]? with
-    | some (.get _ (.recycling k o _)) =>
-      if k = d.pool.cfg.pre.length then
-        let closed := d.closed.contains o.id
-        let sends := !closed && d.method.query.isSome
-        let r := if sends then replies.headD .ok else .ok
-        let (sent, ok) := recycle closed d.method r
-        let d1 := if sends && r == .disconnect then { d with closed := o.id :: d.closed } else d
-        match step d.pool (.step i (if ok then .ok else .err)) with
-        | some s' =>
-          let (d', qs) := soloGet { d1 with pool := s' } i (if sends then replies.tail else replies) fuel
-          (d', (match sent with | some q => [(o.id, q)] | none => []) ++ qs)
-        | none => (d, [])
-      else
-        match step d.pool (.step i .ok) with
-        | some s' => soloGet { d with pool := s' } i replies fuel
-        | none => (d, [])
-    | some (.get _ (.creating _)) | some (.get _ (.postCreate ..)) =>
-      match step d.pool (.step i .ok) with
-      | some s' => soloGet { d with pool := s' } i replies fuel
-      | none => (d, [])
-    | some .done | none => (d, [])
-    | some _ =>
-      match step d.pool (.step i .run) with
-      | some s' => soloGet { d with pool := s' } i replies fuel
-      | none => (d, [])
+/-- one get(), alone (the environment is `PgP.env`) -/
+def soloGet (d : PwState) (i : Nat) (replies : List QueryReply) (fuel : Nat) : PwState × List (Nat × String) :=
+  let r := Solo.soloWith (PgP.env d.method) { closed := d.closed, replies := replies } d.pool i fuel
+  ({ d with pool := r.2, closed := r.1.closed }, r.1.queries)
 
 def parseTypes (t : String) : List Nat := if t == "-" then [] else (t.splitOn ",").filterMap String.toNat?
 
